@@ -363,6 +363,12 @@ func isCmp(op token.Token) bool {
 // symbolic. t is the static type of x.
 func (i *interpreter) symBinop(op token.Token, t types.Type, x, y value) value {
 	px := i.px
+	if _, ok := x.(symstr); ok {
+		return i.symstrBinop(op, x, y)
+	}
+	if _, ok := y.(symstr); ok {
+		return i.symstrBinop(op, x, y)
+	}
 	// pointer-model values
 	if _, ok := x.(uptr); ok {
 		return i.uptrBinop(op, x, y)
@@ -696,6 +702,12 @@ func (i *interpreter) symConv(t_dst, t_src types.Type, x sym) value {
 // result is a bool or a Bool term.
 func (i *interpreter) symEquals(t types.Type, x, y value) value {
 	px := i.px
+	if _, ok := x.(symstr); ok {
+		return i.symstrBinop(token.EQL, x, y)
+	}
+	if _, ok := y.(symstr); ok {
+		return i.symstrBinop(token.EQL, x, y)
+	}
 	if sx, ok := x.(sym); ok {
 		return i.symBinopScalarEq(t, sx, y)
 	}
@@ -757,7 +769,7 @@ func (i *interpreter) symBinopScalarEq(t types.Type, s sym, o value) value {
 // containsSym reports whether a (possibly compound) value has symbolic leaves.
 func containsSym(v value) bool {
 	switch x := v.(type) {
-	case sym:
+	case sym, symstr:
 		return true
 	case structure:
 		for _, e := range x {
@@ -775,4 +787,46 @@ func containsSym(v value) bool {
 		return containsSym(x.v)
 	}
 	return false
+}
+
+// symstr is a symbolic string atom with a concrete prefix: it stands for
+// prefix + "\x01" + ('a'+id). Concrete strings never contain \x01, so
+// equality is decided by (prefix, id).
+type symstr struct {
+	prefix string
+	id     sym // BV8
+}
+
+func (s symstr) length() int { return len(s.prefix) + 2 }
+
+func (i *interpreter) symstrBinop(op token.Token, x, y value) value {
+	px := i.px
+	sx, xok := x.(symstr)
+	sy, yok := y.(symstr)
+	switch op {
+	case token.ADD:
+		if yok && !xok {
+			return symstr{prefix: x.(string) + sy.prefix, id: sy.id}
+		}
+		if xok && !yok && y.(string) == "" {
+			return sx
+		}
+	case token.EQL, token.NEQ:
+		var r value
+		switch {
+		case xok && yok:
+			if sx.prefix != sy.prefix {
+				r = false
+			} else {
+				r = px.mkBool("(= " + sx.id.t + " " + sy.id.t + ")")
+			}
+		default:
+			r = false // a concrete string never equals an atom
+		}
+		if op == token.NEQ {
+			return px.notv(r)
+		}
+		return r
+	}
+	panic(unsupported{fmt.Sprintf("string operation %s on a symbolic string atom", op)})
 }
